@@ -369,7 +369,16 @@ def run(ck, build):
         if base.endswith(("-prefill", "-V-V", "-V-input")) or base == "reseed-V-V":
             return ck.ob(cond, "R-C17-USABLE", fn, "delivered-bytes-" + cons, ok_, bad_, where=where)
         return cond
-    kdflib.check_prng(_seed_ob, mod, label, generate=False)
+    snap = ck.snapshot()
+    try:
+        kdflib.check_prng(_seed_ob, mod, label, generate=False)
+    except Broken as e:
+        ck.rollback(snap)
+        if not ck.violations:
+            raise
+        # the rules above have refuted obligations (a callback stored as NULL, a request that can be skipped ...); that the byte-provenance
+        # summary does not follow the rewritten seeding code does not take them back
+        ck.note("byte-provenance summary of the seeding functions not decided: %s" % str(e)[:200])
     # the buffers handed to the callback are the ones mixed
     f1 = mod.fn("tinyjambu_prng_init_user")
     f2 = mod.fn("tinyjambu_prng_reseed")
